@@ -45,6 +45,19 @@ type c03Replay struct {
 
 // ------------------------------------------------------------------ expressions
 
+// the reference pairs of evalgen.go without the exponent text "1e2": glued to a digit by join or +
+// it becomes 1e22, and Base/Flt.v's decimal fast path is only right up to 1e18 (pow10f goes
+// through float64(int64)); C03 is not about float parsing
+var c03Pairs = func() [][2]string {
+	out := append([][2]string{}, evalPairs...)
+	for i := range out {
+		if out[i][1] == "1e2" {
+			out[i][1] = "1.5"
+		}
+	}
+	return out
+}()
+
 // c03Parse returns the expression to evaluate.  mode 0: checked select field; 1: the operand of
 // a `!( )` field (NotExpr.Check does not look inside: ill-typed shapes reach the evaluator);
 // 2: a field that may use the aliases u, n, l, f.
@@ -244,7 +257,7 @@ func c03Unchecked(r *rng) string {
 }
 
 func c03Chunks(r *rng) [][][2]string {
-	full := evalPairs
+	full := c03Pairs
 	// a random sub-sequence in random order: the first pair decides `=`'s kind in batch mode
 	n := 1 + r.intn(5)
 	sub := make([][2]string, n)
@@ -597,44 +610,44 @@ func runC03(c *runCtx) error {
 	texts := []string{"key", "value", "'Ab,c'", "upper(value)", "(key + value)"}
 	for _, t := range texts {
 		for _, f := range []string{"upper", "lower", "strlen", "int", "float", "str", "is_int", "is_float", "len"} {
-			c03ExprCase(e, fmt.Sprintf("%s(%s)", f, t), 0, evalPairs, "fn="+f)
+			c03ExprCase(e, fmt.Sprintf("%s(%s)", f, t), 0, c03Pairs, "fn="+f)
 		}
 		for _, s := range []string{"','", "'a'", "''", "key"} {
-			c03ExprCase(e, fmt.Sprintf("split(%s, %s)", t, s), 0, evalPairs, "fn=split")
-			c03ExprCase(e, fmt.Sprintf("join(%s, %s, 'x', 3)", s, t), 0, evalPairs, "fn=join")
-			c03ExprCase(e, fmt.Sprintf("split(%s, %s)[1]", t, s), 0, evalPairs, "index")
+			c03ExprCase(e, fmt.Sprintf("split(%s, %s)", t, s), 0, c03Pairs, "fn=split")
+			c03ExprCase(e, fmt.Sprintf("join(%s, %s, 'x', 3)", s, t), 0, c03Pairs, "fn=join")
+			c03ExprCase(e, fmt.Sprintf("split(%s, %s)[1]", t, s), 0, c03Pairs, "index")
 		}
 		for _, a := range []string{"0", "1", "strlen(key)"} {
 			for _, b := range []string{"0", "2", "100", "int(value)"} {
-				c03ExprCase(e, fmt.Sprintf("substr(%s, %s, %s)", t, a, b), 0, evalPairs, "fn=substr")
+				c03ExprCase(e, fmt.Sprintf("substr(%s, %s, %s)", t, a, b), 0, c03Pairs, "fn=substr")
 			}
 		}
-		c03ExprCase(e, fmt.Sprintf("%s in ('a', '12', key)", t), 0, evalPairs, "in-list")
-		c03ExprCase(e, fmt.Sprintf("%s in split(value, ',')", t), 0, evalPairs, "in-fn")
-		c03ExprCase(e, fmt.Sprintf("%s between 'a' and 'kb'", t), 0, evalPairs, "between")
-		c03ExprCase(e, fmt.Sprintf("%s between key and 'kb'", t), 0, evalPairs, "between")
+		c03ExprCase(e, fmt.Sprintf("%s in ('a', '12', key)", t), 0, c03Pairs, "in-list")
+		c03ExprCase(e, fmt.Sprintf("%s in split(value, ',')", t), 0, c03Pairs, "in-fn")
+		c03ExprCase(e, fmt.Sprintf("%s between 'a' and 'kb'", t), 0, c03Pairs, "between")
+		c03ExprCase(e, fmt.Sprintf("%s between key and 'kb'", t), 0, c03Pairs, "between")
 	}
 	lists := []string{"split(value, ',')", "list(1, 2, 3)", "list(0.5, 2)", "int_list(1, '2', value)", "float_list(1, 0.5)", "ilist(7)", "flist(2)", "list(value, 2)", "list(int(value), 1)"}
 	for _, l := range lists {
-		c03ExprCase(e, l, 0, evalPairs, "list-ctor")
-		c03ExprCase(e, "len("+l+")", 0, evalPairs, "fn=len")
-		c03ExprCase(e, l+"[0]", 0, evalPairs, "index")
-		c03ExprCase(e, l+"[2]", 0, evalPairs, "index")
-		c03ExprCase(e, "int(value) in "+l, 0, evalPairs, "in-fn")
-		c03ExprCase(e, "value in "+l, 0, evalPairs, "in-fn")
+		c03ExprCase(e, l, 0, c03Pairs, "list-ctor")
+		c03ExprCase(e, "len("+l+")", 0, c03Pairs, "fn=len")
+		c03ExprCase(e, l+"[0]", 0, c03Pairs, "index")
+		c03ExprCase(e, l+"[2]", 0, c03Pairs, "index")
+		c03ExprCase(e, "int(value) in "+l, 0, c03Pairs, "in-fn")
+		c03ExprCase(e, "value in "+l, 0, c03Pairs, "in-fn")
 		for _, l2 := range lists[:5] {
-			c03ExprCase(e, fmt.Sprintf("l2_distance(%s, %s)", l, l2), 0, evalPairs, "fn=l2_distance")
-			c03ExprCase(e, fmt.Sprintf("cosine_distance(%s, %s)", l, l2), 0, evalPairs, "fn=cosine_distance")
+			c03ExprCase(e, fmt.Sprintf("l2_distance(%s, %s)", l, l2), 0, c03Pairs, "fn=l2_distance")
+			c03ExprCase(e, fmt.Sprintf("cosine_distance(%s, %s)", l, l2), 0, c03Pairs, "fn=cosine_distance")
 		}
 	}
 	nums := []string{"int(value)", "strlen(key)", "2", "float(value)", "0.5"}
 	for _, a := range nums {
 		for _, b := range nums {
 			for _, op := range []string{"+", "-", "*", "/", ">", "<=", "=", "!="} {
-				c03ExprCase(e, fmt.Sprintf("%s %s %s", a, op, b), 0, evalPairs, "num-op")
+				c03ExprCase(e, fmt.Sprintf("%s %s %s", a, op, b), 0, c03Pairs, "num-op")
 			}
-			c03ExprCase(e, fmt.Sprintf("%s between %s and 7", a, b), 0, evalPairs, "between")
-			c03ExprCase(e, fmt.Sprintf("%s in (%s, 2, 12)", a, b), 0, evalPairs, "in-list")
+			c03ExprCase(e, fmt.Sprintf("%s between %s and 7", a, b), 0, c03Pairs, "between")
+			c03ExprCase(e, fmt.Sprintf("%s in (%s, 2, 12)", a, b), 0, c03Pairs, "in-list")
 		}
 	}
 	// the documented asymmetry and its neighbours: batch & / | evaluate both sides
@@ -642,19 +655,19 @@ func runC03(c *runCtx) error {
 		"key = 'zz' & 10 / (int(value) - 7) > 0", "key != 'zz' | 10 / (int(value) - 7) > 0",
 		"10 / (int(value) - 7) > 0 & key = 'zz'", "is_int(value) & int(value) / int(value) = 1",
 		"!(key = 'a') and value between key and 'zz'", "key = 'a' or value between 'b' and 'a'"} {
-		c03ExprCase(e, x, 0, evalPairs, "asymmetry")
-		c03ExprCase(e, x, 0, evalPairs[:1], "asymmetry")
-		c03ExprCase(e, x, 0, evalPairs[6:7], "asymmetry")
+		c03ExprCase(e, x, 0, c03Pairs, "asymmetry")
+		c03ExprCase(e, x, 0, c03Pairs[:1], "asymmetry")
+		c03ExprCase(e, x, 0, c03Pairs[6:7], "asymmetry")
 	}
 	// aliases
 	for _, x := range []string{"u + 'x'", "n + 1", "'a' in l", "n in (1, 2, 12)", "u = 'A'", "len(l)", "l[0]", "l[1] + u",
 		"n between 1 and 20", "u between 'A' and 'KB'", "f * 2", "f > n", "n in l", "join(',', u, n)", "list(n, f)", "substr(u, 0, n)"} {
-		c03ExprCase(e, x, 2, evalPairs, "alias")
-		c03ExprCase(e, x, 2, evalPairs[2:5], "alias")
+		c03ExprCase(e, x, 2, c03Pairs, "alias")
+		c03ExprCase(e, x, 2, c03Pairs[2:5], "alias")
 	}
 	// arity and unknown functions
 	for _, x := range []string{"upper()", "upper(key, key)", "join()", "join(',')", "substr(key, 1)", "list()", "split(key)", "nosuchfn(key)", "len()"} {
-		c03ExprCase(e, x, 0, evalPairs, "arity")
+		c03ExprCase(e, x, 0, c03Pairs, "arity")
 	}
 	// empty chunk
 	for _, x := range []string{"key = 'a'", "int(value) = 1", "list(value, 2)", "key in ('a')", "upper(key)"} {
